@@ -2,7 +2,8 @@ prop("C20", pkg="c20",
      rule="Bounded-exhaustive sweeps: every (length 0..160, alignment, position, deviation byte) single deviation from an all-valid "
           "string for Valid/ValidPrint (all 256 byte values for lengths <= 24), all 128x128 ASCII byte pairs at 3 positions of 17 lengths "
           "and 12 fold-neighbour pairs at every position with every prefix/suffix length for the fold predicates, all bytes / sampled runes, "
-          "plus rapid-generated strings; run for the default (assembly) and the purego build. Non-trivial = first operand has >= 8 bytes "
+          "plus rapid-generated strings (one binary case in six passes two views of one buffer - same start and another length, a window, the whole - "
+          "as operands, and a string with a substring of itself); run for the default (assembly) and the purego build. Non-trivial = first operand has >= 8 bytes "
           "(reaches a word/vector block); distinct = FNV-64 of (function, operands, alignment).",
      quick=dict(shards=8, scale=1, timeout=600),
      thorough=dict(shards=16, scale=30, timeout=3000),
